@@ -81,6 +81,15 @@ pub fn traces(ops_path: &str, impl_path: &str) {
         record("walk", &mut |c| { c.walk().count(); });
         record("walk_storage", &mut |c| { c.walk_storage("/m").unwrap().count(); });
         record("walk_partial", &mut |c| { let mut it = c.walk(); it.next(); it.next(); it.next(); });
+        // an iterator that is alive between two `next()` calls, with other calls made in between: lookups, a nested
+        // iterator, and the handle operations of the same thread (a guard kept across `next()` calls shows up as an
+        // acquisition at depth > 0, or as a call that never returns)
+        record("walk_interleaved_lookups", &mut |c| { let mut it = c.walk(); it.next(); c.is_stream("/s1"); it.next(); c.exists("/m/k"); let _ = c.entry("/m"); it.next(); });
+        record("read_storage_interleaved_lookups", &mut |c| { let mut it = c.read_storage("/m").unwrap(); it.next(); c.is_storage("/m"); let _ = c.root_entry(); it.next(); });
+        record("nested_iterators", &mut |c| { let mut n = 0; for e in c.walk() { if e.is_storage() { n += c.read_storage(e.path()).unwrap().count(); } } let _ = n; });
+        record("walk_storage_inside_read_root", &mut |c| { let mut it = c.read_root_storage(); it.next(); c.walk_storage("/m").unwrap().count(); it.next(); });
+        record("iterator_alive_stream_write_flush", &mut |c| { let mut s = c.open_stream("/s2").unwrap(); let c = &*c; let mut it = c.walk(); it.next(); s.write_all(&pattern(700, 2)).unwrap(); s.flush().unwrap(); it.next(); s.set_len(10).unwrap(); it.next(); });
+        record("iterator_alive_stream_read", &mut |c| { let mut s = c.open_stream("/m/k/big").unwrap(); let c = &*c; let mut it = c.read_root_storage(); it.next(); let mut b = [0u8; 300]; let _ = s.read(&mut b).unwrap(); it.next(); });
         record("open_stream", &mut |c| { let _ = c.open_stream("/s1"); });
         record("stream_read", &mut |c| { let mut s = c.open_stream("/s1").unwrap(); let mut v = Vec::new(); s.read_to_end(&mut v).unwrap(); });
         record("stream_fill_buf", &mut |c| { let mut s = c.open_stream("/m/k/big").unwrap(); let n = s.fill_buf().unwrap().len(); s.consume(n); s.fill_buf().unwrap(); });
@@ -172,6 +181,18 @@ pub fn steer() {
         {
             let mut it = c1.walk();
             it.next();
+            it.next();
+        }
+        {
+            // other read-only calls while an iterator is alive between two `next()` calls
+            let mut it = c1.walk();
+            it.next();
+            n += c1.is_stream("/s1") as usize;
+            it.next();
+            let mut inner = c1.read_storage("/m").unwrap();
+            inner.next();
+            n += c1.exists("/m/k") as usize;
+            inner.next();
             it.next();
         }
         a_done2.store(true, Ordering::SeqCst);
